@@ -11,6 +11,10 @@ S9  == Shell(1, 1, 1, 9, 3)      \* 30 points, many coplanar quadruples
 S14 == Shell(1, 1, 1, 14, 3)     \* 48 points
 E6  == Shell(1, 2, 3, 6, 3)      \* ellipsoidal shell
 E21 == Shell(1, 2, 3, 21, 5)
+\* sharp and flat features together: a tall roof with an acute ridge along y whose middle is raised to a tip, so that
+\* nearly flat facets (tip bevels) sit next to a sharp ridge; and a flat slab with a low pyramid on top
+Blade == { <<4, 3, 0>>, <<-4, 3, 0>>, <<4, -3, 0>>, <<-4, -3, 0>>, <<0, 3, 8>>, <<0, -3, 8>>, <<0, 0, 9>> }
+Slab == { <<5, 4, 0>>, <<-5, 4, 0>>, <<5, -4, 0>>, <<-5, -4, 0>>, <<4, 3, 1>>, <<-4, 3, 1>>, <<4, -3, 1>>, <<-4, -3, 1>>, <<0, 0, 2>> }
 Zero == <<0, 0, 0>>
 Far == <<40, -30, 20>>
 =============================================================================
